@@ -597,6 +597,73 @@ func c16MarkerWithHistory(c *Ctx) {
 	if n < 2 && !(inClosure && n == 1) {
 		c.und("marker-with-history", "pruneHashKeyedUpto", p.Pos(fnPos(f)), fmt.Sprintf("only %d batch commits found", n))
 	}
+	// … up to and including the block whose history the current iteration has just deleted: a marker delete that runs inside
+	// the sweep loop after the per-block deletions must end (exclusively) above the loop's block number, i.e. at counter + k,
+	// k ≥ 1 — ending at the counter itself leaves the commitment of the block just pruned (seeded change C16-G).
+	perBlock := func(in ssa.Instruction) bool {
+		for _, s := range sitesOf(f) {
+			if s.Callee != nil && (s.Callee.Name() == "pruneStateHistoryFromUpdate" || s.Callee.Name() == "deleteTransactionHashReverseLookups") && inSameLoop(s.Block(), in.Block()) && dominatesInstr(s.Instr, in) {
+				return true
+			}
+		}
+		return false
+	}
+	endOK := func(v ssa.Value) (bool, string) {
+		b, ok := v.(*ssa.BinOp)
+		if !ok || b.Op != token.ADD {
+			return false, term(v)
+		}
+		k, isK := b.Y.(*ssa.Const)
+		_, isPhi := b.X.(*ssa.Phi)
+		if !isPhi {
+			if u, isU := b.X.(*ssa.UnOp); isU && u.Op == token.MUL {
+				isPhi = true // counter kept in a named result / captured variable
+			}
+		}
+		return isK && isPhi && k.Value != nil && k.Int64() >= 1, term(v)
+	}
+	nm := 0
+	for _, m := range marks {
+		args := m.Args()
+		if len(args) == 0 {
+			continue
+		}
+		end := args[len(args)-1]
+		if m.Instr.Parent() == f {
+			if !inSameLoop(m.Block(), m.Block()) || !perBlock(m.Instr) {
+				continue
+			}
+			nm++
+			ok, t := endOK(end)
+			c.check(ok, "marker-with-history", fmt.Sprintf("pruneHashKeyedUpto: in-loop marker bound #%d", nm), p.Pos(m.Pos()), "ends above the block just pruned (counter + k)", "the commitments are deleted only below "+t+" although the history of the loop's current block was already deleted in this batch: after a crash behind this batch that block is advertised as retained")
+			continue
+		}
+		// inside a local closure: the bound is a parameter; judge every in-loop call of the closure
+		pa, isParam := end.(*ssa.Parameter)
+		if !isParam {
+			continue
+		}
+		idx := -1
+		for i, q := range m.Instr.Parent().Params {
+			if q == pa {
+				idx = i
+			}
+		}
+		for _, s := range sitesOf(f) {
+			if s.Callee != m.Instr.Parent() || idx < 0 || idx >= len(s.Args()) {
+				continue
+			}
+			if !inSameLoop(s.Block(), s.Block()) || !perBlock(s.Instr) {
+				continue
+			}
+			nm++
+			ok, t := endOK(s.Args()[idx])
+			c.check(ok, "marker-with-history", fmt.Sprintf("pruneHashKeyedUpto: in-loop marker bound #%d", nm), p.Pos(s.Pos()), "ends above the block just pruned (counter + k)", "the commitments are deleted only below "+t+" although the history of the loop's current block was already deleted in this batch: after a crash behind this batch that block is advertised as retained")
+		}
+	}
+	if nm == 0 {
+		c.und("marker-with-history", "pruneHashKeyedUpto: in-loop marker bound", p.Pos(fnPos(f)), "no marker delete inside the sweep loop was recognised")
+	}
 }
 
 // c16BloomWindowAndScratch: (bloom-window-floor) pruning keeps the aggregated bloom filter of the window the floor falls
